@@ -288,8 +288,10 @@ func c15NodeList() []mimetype.VerifNode {
 	nodes := mimetype.VerifNodes()
 	for i := range nodes {
 		for _, e := range c15Extensions {
-			if nodes[i].Name == e.name {
-				nodes[i].Aliases = e.aliases // what was registered, not what was stored
+			if nodes[i].Ext == e.ext {
+				// what was registered, not what was stored: name and aliases
+				nodes[i].Name = e.name
+				nodes[i].Aliases = e.aliases
 			}
 		}
 	}
